@@ -72,3 +72,41 @@ def layout_of(case, salt=0):
 def L(case, arr, salt=0):
     """``arr`` with the memory layout chosen for this case (equal values; C order, Fortran order, strided or negative-stride view)"""
     return relayout(arr, layout_of(case, salt))
+
+
+def _perturb(arr):
+    a = np.asarray(arr)
+    if a.dtype.kind in 'iu':
+        return ((np.roll(a, 1, axis=-1).astype('int64') ^ 0x5a) & 0xFF).astype(a.dtype) if a.ndim else a
+    return np.roll(a, 1, axis=-1) if a.ndim else a
+
+
+def pure_call(case, what, fn, arrays, kwargs=None, salt=0):
+    """Call a function that is specified as PURE in its array arguments, inside a small history chosen from the case digest:
+
+    * prime: the same array OBJECTS are first used for a call with other contents and then refilled in place
+      (an identity-keyed cache or a retained reference to the arguments must not leak into the real call);
+    * hold:  after the real call, the function is called again with other arguments of the same shapes, and only then is the
+      first result handed back for comparison (a result that is a view of an internal work buffer would have changed).
+    Returns the result of the real call.
+    """
+    from .core import digest, must
+    kwargs = kwargs or {}
+    mode = digest(case)[3 + salt] % 4           # 0: plain, 1: prime, 2: hold, 3: prime + hold
+    args = [np.asarray(a) for a in arrays]
+    if mode in (1, 3):
+        bufs = [np.array(_perturb(a), copy=True) for a in args]
+        try:
+            fn(*bufs, **kwargs)
+        except Exception:
+            pass                                 # the priming call is not the call under test
+        for b, a in zip(bufs, args):
+            b[...] = a
+        args = bufs
+    out = must(case, what, fn, *args, **kwargs)
+    if mode in (2, 3):
+        try:
+            fn(*[np.array(_perturb(a), copy=True) for a in args], **kwargs)
+        except Exception:
+            pass
+    return out, ['plain', 'primed', 'held', 'primed+held'][mode]
